@@ -445,16 +445,17 @@ def check_arrays(out, facts):
     else:
         body = stars[0][2]
         alts = [x for x in sym.walk(body) if x[0] == 'alt']
-        cond = sym.vstr(alts[0][1][1]) if alts else ''
+        G = array_guard(facts)
+        cond = guard_canon(sym.vstr(alts[0][1][1]) if alts else '', G)
         if cond != '(mut state.count Lt len(mut state.slice))':
             why.append('element loop does not run while count < N: ' + cond)
         evs = [e for e in events(body) if e[0] in ('dec', 'SET', '?')]
         if [e[0] for e in evs] != ['dec', '?', 'SET'] or evs[0][3] != 'decode_into' or evs[0][1] != 'T':
             why.append('loop body is not decode_into::<T>(..)?; count += 1')
         else:
-            if sym.vstr(evs[0][4]) != 'index_mut(mut state.slice, mut state.count)' and 'state.slice' not in sym.vstr(evs[0][4]):
+            if guard_canon(sym.vstr(evs[0][4]), G) != 'index_mut(mut state.slice, mut state.count)' and 'state.slice' not in guard_canon(sym.vstr(evs[0][4]), G):
                 why.append('element destination is not slice[count]: ' + sym.vstr(evs[0][4]))
-            if not (sym.vstr(evs[2][1]) == 'mut state.count' and evs[2][3] == 'AddAssign' and sym.vstr(evs[2][2]) == '1:usize'):
+            if not (guard_canon(sym.vstr(evs[2][1]), G) == 'mut state.count' and evs[2][3] == 'AddAssign' and sym.vstr(evs[2][2]) == '1:usize'):
                 why.append('count is not incremented by one after the successful element decode')
     w = shortcut_success_exit(t)
     if w:
